@@ -19,6 +19,13 @@ CLAIMED = {
         "parse of the same text, for eager and lazy reading and through bnp.open on real files.",
         "Holds on the explored region only. The reference parse (int(), float(), str.split) and the grammars in pbt/formats.py and pbt/strategies.py are trusted; floats are compared within 8 ulp.",
         "Hypothesis grammar-based generation, reference-model oracle (independent Python parse)"),
+    "C04": (
+        "Model-based generated histories: Hypothesis draws a source file with non-canonical spellings and a program of selections, "
+        "concatenations, field replacements and interleaved write / to-rows observations over a pool of lazily read tables; a byte-level model "
+        "(source record byte strings plus per-row replaced fields) predicts the written bytes exactly for unmodified selections and field by "
+        "field for concatenated or modified tables.",
+        "Holds on the explored region only; eight text formats (BAM pass-through is exercised by the C16 check). Trusts pbt/formats.py record serializers. Tolerances: float re-formatting within 8 ulp, '.' placeholder may become 0 in a replaced column, an empty SAM tags field may be written as a trailing tab.",
+        "Hypothesis-generated operation programs interpreted against a byte-level reference model"),
     "C15": (
         "Fault injection over generated inputs: one format violation of each class is injected at every record position of a well-formed file; "
         "exhaustive over small files x every chunk size x lazy/eager x plain/gzip, sampled for larger files of nine formats. Oracle: an exception "
